@@ -10,6 +10,8 @@ import hashlib
 import json
 import os
 import random
+import signal
+import threading
 import traceback
 from collections import Counter
 
@@ -156,7 +158,9 @@ def innermost_project_frame(exc: BaseException):
     tb = exc.__traceback__
     while tb is not None:
         code = tb.tb_frame.f_code
-        if not code.co_filename.startswith("<"):  # "<frozen posixpath>", "<string>": no file, not a project frame
+        if code.co_name == "_on_guard_timeout":
+            pass  # the timer's handler runs on top of whatever was executing: that frame below it is what hangs
+        elif not code.co_filename.startswith("<"):  # "<frozen posixpath>", "<string>": no file, not a project frame
             frames.append((os.path.abspath(code.co_filename), code.co_name,
                            getattr(code, "co_qualname", code.co_name), tb.tb_lineno))
         tb = tb.tb_next
@@ -211,7 +215,16 @@ class Run:
     @contextlib.contextmanager
     def guard(self, scope: str, what: str, promise: bool = True, **detail):
         """Run library code; an exception raised from inside /repo becomes a violation (when the
-        property promises a result there), one raised from /verif stays a harness error."""
+        property promises a result there), one raised from /verif stays a harness error.  A guarded call that
+        does not return within GUARD_TIMEOUT_S (a loop inside rl4co that never ends) is interrupted by a timer
+        signal; the resulting GuardTimeout is classified like any other exception, so a hang inside rl4co is a
+        violation with a replay instead of a dead worker."""
+        armed = False
+        if threading.current_thread() is threading.main_thread() and hasattr(signal, "setitimer") \
+                and signal.getitimer(signal.ITIMER_REAL)[0] == 0.0:
+            signal.signal(signal.SIGALRM, _on_guard_timeout)
+            signal.setitimer(signal.ITIMER_REAL, GUARD_TIMEOUT_S)
+            armed = True
         try:
             yield
         except (HarnessError, StopRun):
@@ -237,6 +250,20 @@ class Run:
                 self.log.add("unpromised_exception", type(e).__name__, f, func)
                 raise StopRun() from e
             raise
+        finally:
+            if armed:
+                signal.setitimer(signal.ITIMER_REAL, 0.0)
+
+
+class GuardTimeout(Exception):
+    """a guarded library call did not return in time"""
+
+
+GUARD_TIMEOUT_S = float(os.environ.get("RLSIM_GUARD_TIMEOUT_S", "300"))
+
+
+def _on_guard_timeout(signum, frame):
+    raise GuardTimeout(f"the call did not return within {GUARD_TIMEOUT_S:.0f} s")
 
 
 @contextlib.contextmanager
